@@ -16,7 +16,7 @@ import (
 // job kinds plus a few of size 4.
 func jobSets() [][]int {
 	var out [][]int
-	kinds := []int{JAsm1, JAsm2, JSim, JLoad, JAsm3, JAsm4}
+	kinds := []int{JAsm1, JAsm2, JSim, JLoad, JAsm3, JAsm4, JAsm1b}
 	for _, a := range kinds {
 		out = append(out, []int{a})
 		for _, b := range kinds {
@@ -58,7 +58,11 @@ func RaceOnce(jobs []int, threads, reps int, solo map[int]string) (mismatch stri
 		// (caches, pools) and hide races on its construction
 		if len(solo) == 0 {
 			for _, j := range jobs {
-				solo[j] = RunJob(j, cfg, SharedWarrior())
+				if e, ok := Expected(j); ok {
+					solo[j] = e
+				} else {
+					solo[j] = RunJob(j, cfg, SharedWarrior())
+				}
 			}
 		}
 		for t := 0; t < threads; t++ {
